@@ -92,6 +92,9 @@ fn enc_outcome(r: Result<Result<(), EncryptError>, String>) -> Outcome {
         Ok(Err(EncryptError::IORead(e))) => Outcome::IORead(e.kind(), e.to_string()),
         Ok(Err(EncryptError::IOWrite(e))) => Outcome::IOWrite(e.kind(), e.to_string()),
         Ok(Err(EncryptError::Other(m))) => Outcome::Other(m),
+        // a variant added to the enum later must not stop the monitor from compiling
+        #[allow(unreachable_patterns)]
+        Ok(Err(other)) => Outcome::Other(format!("unlisted EncryptError variant: {}", other)),
     }
 }
 
@@ -103,6 +106,8 @@ fn dec_err(e: DecryptError) -> Outcome {
         DecryptError::IORead(e) => Outcome::IORead(e.kind(), e.to_string()),
         DecryptError::IOWrite(e) => Outcome::IOWrite(e.kind(), e.to_string()),
         DecryptError::Other(m) => Outcome::Other(m),
+        #[allow(unreachable_patterns)]
+        other => Outcome::Other(format!("unlisted DecryptError variant: {}", other)),
     }
 }
 
